@@ -397,21 +397,21 @@ func writeEvidence(vd string, w *World, res *propResult, tier string, seed int) 
 		"seed":        seed,
 		"level":       "other",
 		"coverage": map[string]interface{}{
-			"explanation": "Static analysis of /repo's current source (go/packages type-checked program lowered to go/ssa). Each obligation is one instance of a rule (guard-on-all-paths, ordering, ownership, exhaustiveness, agreement, lock-held, bounded, send-count) evaluated on a specific construct of the code; the rules are structural necessary conditions of the property, not the behaviour itself (DESIGN.md §4 lists what is and is not decided).",
-			"obligations": len(res.obls),
-			"discharged":  ok + len(res.known),
-			"evaluations": len(res.obls),
+			"explanation":         "Static analysis of /repo's current source (go/packages type-checked program lowered to go/ssa). Each obligation is one instance of a rule (guard-on-all-paths, ordering, ownership, exhaustiveness, agreement, lock-held, bounded, send-count) evaluated on a specific construct of the code; the rules are structural necessary conditions of the property, not the behaviour itself (DESIGN.md §4 lists what is and is not decided).",
+			"obligations":         len(res.obls),
+			"discharged":          ok + len(res.known),
+			"evaluations":         len(res.obls),
 			"distinct_nontrivial": len(distinct),
-			"rule":        "one obligation per (rule, construct key): a sink/site matched in the SSA program together with the guard/order/ownership condition evaluated on every CFG path to it; distinct = distinct (rule, construct) pairs; all are non-trivial because each names a matched site in the code (rules matching nothing fail their floor)",
-			"samples":     samples,
-			"rules":       res.rulesRun,
-			"functions_analysed": res.funcs,
-			"root_packages":      len(w.Roots),
-			"build_config":       w.BuildCfg,
-			"known_findings":     len(res.known),
-			"witnesses":          res.witness,
-			"checker_cmd":        "bin/tmverif -prop " + res.prop + " -tier " + tier,
-			"trusted_base":       []string{"go/types", "golang.org/x/tools v0.29.0 go/packages, go/ssa", "the frozen scope and allow tables in /verif/tool"},
+			"rule":                "one obligation per (rule, construct key): a sink/site matched in the SSA program together with the guard/order/ownership condition evaluated on every CFG path to it; distinct = distinct (rule, construct) pairs; all are non-trivial because each names a matched site in the code (rules matching nothing fail their floor)",
+			"samples":             samples,
+			"rules":               res.rulesRun,
+			"functions_analysed":  res.funcs,
+			"root_packages":       len(w.Roots),
+			"build_config":        w.BuildCfg,
+			"known_findings":      len(res.known),
+			"witnesses":           res.witness,
+			"checker_cmd":         "bin/tmverif -prop " + res.prop + " -tier " + tier,
+			"trusted_base":        []string{"go/types", "golang.org/x/tools v0.29.0 go/packages, go/ssa", "the frozen scope and allow tables in /verif/tool"},
 		},
 		"assumptions": []string{
 			"go/types and go/ssa model the program faithfully; reflection and unsafe are not followed (neither occurs at anchored sites)",
